@@ -41,6 +41,7 @@ package crypto
 //@   ensures result1 == nil ==> (validPoint(result0) && fresh(result0) && result0.curve == p.curve)
 //@   ensures result1 == nil ==> (px(result0) == ecaddx(p.curve, px(p), py(p), px(p1), py(p1)) && py(result0) == ecaddy(p.curve, px(p), py(p), px(p1), py(p1)))
 //@   ensures result1 != nil ==> result0 == nil
+//@   ensures [C17.refuses-exactly-a-sum-off-the-curve] (result1 == nil) <==> oncurve(p.curve, ecaddx(p.curve, px(p), py(p), px(p1), py(p1)), ecaddy(p.curve, px(p), py(p), px(p1), py(p1)))
 //@   assume-ensures [L-edwards-closed] (isedw(p.curve) && p1.curve == p.curve && oncurve(p.curve, px(p), py(p)) && oncurve(p1.curve, px(p1), py(p1))) ==> result1 == nil
 
 //@ func (*ECPoint).ScalarMult
